@@ -58,6 +58,11 @@ def ensure_files():
     lay3, truth3 = wg.bead_layout(I3, stream=4)
     wg.write_fcs(os.path.join(d, 'beads_3ch.fcs'), lay3)
     _FILES['truth3'] = truth3
+    # bead files in which one of the two channels does not resolve the populations (they can only be clustered on the other one)
+    for flat in (0, 1):
+        layx, truthx = wg.bead_layout(I1, stream=6 + flat, flat_channels=(flat,))
+        wg.write_fcs(os.path.join(d, 'beads_flat%d.fcs' % (flat + 1)), layx)
+        _FILES['truth_flat%d' % (flat + 1)] = truthx
     layf, _ = wg.bead_layout(I1, stream=3, few=True)
     wg.write_fcs(os.path.join(d, 'beads_few.fcs'), layf)
     for i in range(5):
@@ -66,6 +71,9 @@ def ensure_files():
     wg.write_fcs(os.path.join(d, 'cell_lin.fcs'), wg.cell_layout(I1, stream=21, linear_fl=True))
     wg.write_fcs(os.path.join(d, 'cell_volt.fcs'), wg.cell_layout(I1, stream=22, voltage_shift=7))
     wg.write_fcs(os.path.join(d, 'cell_i2.fcs'), wg.cell_layout(I2, stream=23))
+    # acquisition settings that differ from the beads' in the SECOND calibrated channel only
+    wg.write_fcs(os.path.join(d, 'cell_volt2.fcs'), wg.cell_layout(I1, stream=26, voltages=[500, 532]))
+    wg.write_fcs(os.path.join(d, 'cell_lin2.fcs'), wg.cell_layout(I1, stream=27, linear_fl='second'))
     I1sw = dict(I1, fl=[FL2, FL1])            # the same instrument, the two fluorescence parameters stored in the other order
     wg.write_fcs(os.path.join(d, 'cell_sw.fcs'), wg.cell_layout(I1sw, stream=25, n=860, voltages=[525, 500]))
     wg.write_fcs(os.path.join(d, 'cell_volt0.fcs'), wg.cell_layout(I1, stream=24, voltage_shift=-500))     # detector voltage of FL1 exactly 0
@@ -102,7 +110,7 @@ def sample_row(pos, fault):
         r['beads'] = 'B_NF' if pos % 5 == 3 else 'B_NOVAL'
     if fault == 'ok':
         return r
-    if pos % 5 in (2, 3) and (fault.startswith('mef-') or fault in ('other-instrument', 'amp-differs', 'voltage-differs', 'voltage-zero')):
+    if pos % 5 in (2, 3) and (fault.startswith('mef-') or fault in ('other-instrument', 'amp-differs', 'voltage-differs', 'voltage-zero', 'voltage-differs-second', 'amp-differs-second')):
         # these faults only exist for a row that asks for MEF: at these positions use an integer (log-amplified) file and ask for it
         r['file'] = 'cell_4.fcs' if pos % 5 == 3 else r['file']
         r['units'] = {FL1: 'MEF', FL2: fl2_units}
@@ -144,6 +152,10 @@ def sample_row(pos, fault):
         r['file'] = 'cell_volt.fcs'
     elif fault == 'voltage-zero':
         r['file'] = 'cell_volt0.fcs'
+    elif fault in ('voltage-differs-second', 'amp-differs-second'):
+        r['file'] = 'cell_volt2.fcs' if fault.startswith('voltage') else 'cell_lin2.fcs'
+        r['units'] = {FL1: 'MEF', FL2: 'MEF'}
+        r['beads'] = 'B_OK'
     else:
         raise ValueError(fault)
     return r
@@ -154,6 +166,13 @@ def bead_row(pos, fault):
     r = dict(id='B%d' % (pos + 1), inst='INST1', file='beads_ok.fcs', gate_fraction=[0.3, 0.5, 0.4, 0.35][pos % 4],
              cluster=[FL1, '%s, %s' % (FL1, FL2), FL2, FL1][pos % 4], mef={FL1: wg.mef_string(t, 0), FL2: wg.mef_string(t, 1)})
     if fault == 'ok':
+        return r
+    if fault in ('ok:flat1', 'ok:flat2'):
+        # healthy rows on the files with one unresolved channel: clustered on, and calibrated for, the other channel only
+        k = int(fault[-1])
+        tx = _FILES['truth_flat%d' % k]
+        good = [FL1, FL2][2 - k]
+        r.update(file='beads_flat%d.fcs' % k, cluster=good, mef={good: wg.mef_string(tx, 2 - k)})
         return r
     if fault.startswith('fraction='):
         r['gate_fraction'] = float(fault[9:])
@@ -225,6 +244,10 @@ def run_samples(rows, variant):
 
 def cases(tier, seed):
     F = SAMPLE_FAULTS
+    # bead rows that can only be clustered on the channels their own row names (first in their worker: nothing remembered from an earlier table)
+    for rows in (['ok:flat2', 'ok:flat1'], ['ok:flat1', 'ok:flat2'], ['ok:flat2', 'notfound', 'ok:flat1'], ['ok:flat1', 'ok', 'ok:flat2'], ['ok:flat1'], ['ok:flat2']):
+        yield dict(kind='beads', rows=rows)
+        yield dict(kind='samples', rows=[], filler=True)
     yield dict(kind='samples', rows=[])
     for R in (1, 2, 3, 4, 5):
         for assign in itertools.product(range(len(F)), repeat=R):
@@ -242,6 +265,10 @@ def cases(tier, seed):
                 yield dict(kind='samples', rows=['ok'] * R, order=list(perm))
     for f in ['units=' + u for u in BAD_UNITS] + ['fraction=%r' % x for x in BAD_FRACTIONS]:
         for rows in ([f], ['ok', f], [f, 'ok'], ['ok', f, 'ok']) if tier == 'thorough' else ([f], [f, 'ok']):
+            yield dict(kind='samples', rows=rows)
+    # settings that differ from the beads' in the second of two calibrated channels only
+    for f in ('voltage-differs-second', 'amp-differs-second'):
+        for rows in ([f], ['ok', f], [f, 'ok'], ['ok', f, 'ok'], [f, f]):
             yield dict(kind='samples', rows=rows)
     # files of one instrument that store the calibrated channels at different parameter positions, in every order of the rows
     for perm in itertools.permutations(['A', 'SW', 'C']):
@@ -492,7 +519,7 @@ def run_case(c):
             except Exception as e:
                 res.violation('samples:no-beads-table:batch-aborted:%s' % type(e).__name__, '%s, processed without beads_table: %s escaped: %s' % (what, type(e).__name__, e), one)
                 return res
-            needs_bt = ('other-instrument', 'amp-differs', 'voltage-differs', 'voltage-zero', 'mef-nocolumn')
+            needs_bt = ('other-instrument', 'amp-differs', 'voltage-differs', 'voltage-zero', 'mef-nocolumn', 'voltage-differs-second', 'amp-differs-second')
             for r, f, p in zip(rows, faults, order):
                 s2 = s_nb.get(r['id'])
                 if f in needs_bt:
@@ -530,7 +557,7 @@ def run_case(c):
             bs, fx, outs = ui.process_beads_table(bt, inst, base_dir=d, verbose=False, plot=False, full_output=True)
             ui.add_beads_stats(bt, bs, outs)
     except Exception as e:
-        res.violation('beads:batch-aborted:%s:%s' % (type(e).__name__, '+'.join(sorted(set(f for f in faults if f != 'ok')))),
+        res.violation('beads:batch-aborted:%s:%s' % (type(e).__name__, '+'.join(sorted(set(f for f in faults if not f.startswith('ok'))))),
                       '%s: %s escaped: %s' % (what, type(e).__name__, e), one)
         return res
     ok = True
@@ -569,7 +596,7 @@ def run_case(c):
                 what, list(bs_s.keys()), list(fx_s.keys())), one)
             return res
         for r, f in zip(rows, faults):
-            if (f != 'ok') != (fx_s[r['id']] is None) or (f != 'ok') != isinstance(bs_s[r['id']], ui.ExcelUIException):
+            if (not f.startswith('ok')) != (fx_s[r['id']] is None) or (not f.startswith('ok')) != isinstance(bs_s[r['id']], ui.ExcelUIException):
                 res.violation('beads:short-form-row:%s' % f, '%s: process_beads_table(full_output=False) row %s (%s): sample %s, function %s' % (
                     what, r['id'], f, type(bs_s[r['id']]).__name__, type(fx_s[r['id']]).__name__), one)
                 return res
@@ -582,7 +609,7 @@ def run_case(c):
     for r, f, p in zip(rows, faults, range(len(rows))):
         s = bs[r['id']]
         note = bt.loc[r['id'], 'Analysis Notes']
-        if f != 'ok':
+        if not f.startswith('ok'):
             if not isinstance(s, ui.ExcelUIException) or fx[r['id']] is not None:
                 res.violation('beads:fault-not-reported:%s' % f, '%s: row %s (%s) yielded %s' % (what, r['id'], f, type(s).__name__), one)
                 ok = False
@@ -597,10 +624,27 @@ def run_case(c):
                 res.violation('beads:healthy-row-failed', '%s: healthy row %s failed: %s' % (what, r['id'], s), one)
                 ok = False
                 continue
-            key = ('bead', p)
+            key = ('bead', p, f)
+            # the calibration is that of the row's own beads: the standard curve maps each population's fluorescence to its stated value
+            tx = _FILES['truth_flat%s' % f[-1]] if f != 'ok' else _FILES['truth']
+            chans = [ch for ch in (FL1, FL2) if r['mef'].get(ch)]
+            offc = None
+            for k_, ch in enumerate(chans):
+                ci = (FL1, FL2).index(ch)
+                xs_ = np.array([float(x) for x in tx['rfi'][ci]])
+                want_ = np.array([float(x) for x in tx['mef'][ci]])
+                got_ = np.asarray(outs[r['id']].fitting['std_crv'][k_](xs_), dtype=float)
+                if not np.all(np.abs(got_ / want_ - 1) < 0.25):
+                    offc = (ch, got_.tolist(), want_.tolist())
+                    break
+            if offc:
+                res.violation('beads:healthy-row-calibration-wrong', '%s: the standard curve of healthy row %s (clustering channels %r) for %s maps the bead populations to %s, their stated values are %s' % (
+                    what, r['id'], r['cluster'], offc[0], [round(x, 1) for x in offc[1]], [round(x, 1) for x in offc[2]]), one)
+                ok = False
+                continue
             if key not in _SINGLE:
                 wb1 = os.path.join(d, 'beadstab1_%d.xlsx' % os.getpid())
-                wg.write_workbook(wb1, [I1, I2, I3], [bead_row(p, 'ok')], [], mef_channels_cols=[FL1, FL2, I3['fl'][2]])
+                wg.write_workbook(wb1, [I1, I2, I3], [bead_row(p, f)], [], mef_channels_cols=[FL1, FL2, I3['fl'][2]])
                 bt1 = ui.read_table(wb1, 'Beads', 'ID')
                 np.random.seed(1)
                 with warnings.catch_warnings():
@@ -620,7 +664,7 @@ def run_case(c):
         res.violation('beads:empty-table', 'an empty Beads table yields results', one)
         ok = False
     if ok:
-        nf = sum(1 for f in faults if f != 'ok')
+        nf = sum(1 for f in faults if not f.startswith('ok'))
         res.ok('beads:R=%d:faults=%d' % (len(rows), nf), nf > 0)
     res.sample({'table': 'Beads', 'rows': faults})
     return res
